@@ -22,6 +22,7 @@
  *   reachable ONLY through the Tuple (the collector must keep them alive; under CELLO_NGC the harness deletes them itself):
  *                     tnew t T x* | tpush t x | tpushat t i x | tpop t | tpopat t i | tget t i | tset t i x | titems t | tritems t
  *                     | tlen t | tsort t | tmem t x | trem t x | tcat t x* | tresize t n | tcmp t t2 | thash t | tdrop t | tdel t
+ *                     probe t v q* | preset t   (method-cache probe types, see below)     ring n seed churn   (Boxes owning each other)
  */
 #include "common.h"
 #include <inttypes.h>
@@ -194,6 +195,75 @@ static void check_obj(int s, const char* after) {
     if (strcmp(buf1, buf2)) { snprintf(w, sizeof w, "contents-after-%s", after); XF(w, buf1, buf2); }
     if (len(o) != h->n) { snprintf(w, sizeof w, "len-after-%s", after); XF(w, "", ""); }
   }
+}
+
+
+/* ------------------------------------------------------------------------------------------------ probe types (method cache)
+ * Three identical file-scope types implementing 17 of the 18 cached classes (all but Alloc), every member returning a value
+ * that identifies the member that was really called.  `probe t v q…` creates an object and queries it through the public API
+ * in the given order, so every ordered pair of cached classes is looked up on ONE type, cold (first use in the process, or
+ * after `preset t`, a white-box wipe of the type's cache words) and warm.  With the cache compiled out the answers are the
+ * declared ones by construction (Type_Scan); a build whose cache hands out another class's instance prints something else. */
+struct Probe { int64_t v; var p; };
+static var probe_current_obj = NULL;
+static size_t Probe_Size(void) { return sizeof(struct Probe); }
+static void Probe_New(var self, var args) { struct Probe* q = self; q->v = c_int(get(args, $I(0))); q->p = NULL; }
+static void Probe_Assign(var self, var obj) { struct Probe* q = self; struct Probe* o = obj; q->v = o->v; q->p = o->p; }
+static int Probe_Cmp(var self, var obj) { struct Probe* q = self; struct Probe* o = obj; return q->v < o->v ? -1 : q->v > o->v ? 1 : 0; }
+static void Probe_Mark(var self, var gc, void (*f)(var, void*)) { }
+static uint64_t Probe_Hash(var self) { struct Probe* q = self; return (uint64_t)(q->v + 3000); }
+static size_t Probe_Len(var self) { struct Probe* q = self; return (size_t)(q->v + 1000); }
+static var Probe_Iter_Init(var self) { return Terminal; }
+static var Probe_Iter_Next(var self, var curr) { return Terminal; }
+static var Probe_Iter_Type(var self) { return Int; }
+static void Probe_Push(var self, var obj) { struct Probe* q = self; q->v += c_int(obj); }
+static void Probe_Pop(var self) { struct Probe* q = self; q->v -= 1; }
+static void Probe_Push_At(var self, var obj, var key) { struct Probe* q = self; q->v += 2 * c_int(obj) + c_int(key); }
+static void Probe_Pop_At(var self, var key) { struct Probe* q = self; q->v -= c_int(key); }
+static void Probe_Concat(var self, var obj) { struct Probe* q = self; q->v += 100 * c_int(obj); }
+static void Probe_Append(var self, var obj) { struct Probe* q = self; q->v += 10 * c_int(obj); }
+static var Probe_Get(var self, var key) { return self; }
+static void Probe_Set(var self, var key, var val) { struct Probe* q = self; q->v = c_int(key) * 1000 + c_int(val); }
+static bool Probe_Mem(var self, var key) { struct Probe* q = self; return (q->v & 1) != 0; }
+static void Probe_Rem(var self, var key) { struct Probe* q = self; q->v ^= 1; }
+static char probe_strbuf[64];
+static char* Probe_C_Str(var self) { struct Probe* q = self; snprintf(probe_strbuf, sizeof probe_strbuf, "probe%lld", (long long)q->v); return probe_strbuf; }
+static int64_t Probe_C_Int(var self) { struct Probe* q = self; return q->v + 2000; }
+static double Probe_C_Float(var self) { struct Probe* q = self; return (double)q->v + 0.5; }
+static var Probe_Current(void) { return probe_current_obj; }
+static var Probe_Cast(var self, var type) { return self; }
+static void Probe_Ref(var self, var item) { struct Probe* q = self; q->p = item; }
+static var Probe_Deref(var self) { struct Probe* q = self; return q->p; }
+#define PROBE_TYPE(N) \
+  struct N { int64_t v; var p; }; \
+  static var N = Cello(N, \
+    Instance(Size, Probe_Size), Instance(New, Probe_New, NULL), Instance(Assign, Probe_Assign), Instance(Cmp, Probe_Cmp), \
+    Instance(Mark, Probe_Mark), Instance(Hash, Probe_Hash), Instance(Len, Probe_Len), \
+    Instance(Iter, Probe_Iter_Init, Probe_Iter_Next, Probe_Iter_Init, Probe_Iter_Next, Probe_Iter_Type), \
+    Instance(Push, Probe_Push, Probe_Pop, Probe_Push_At, Probe_Pop_At), Instance(Concat, Probe_Concat, Probe_Append), \
+    Instance(Get, Probe_Get, Probe_Set, Probe_Mem, Probe_Rem, NULL, NULL), Instance(C_Str, Probe_C_Str), \
+    Instance(C_Int, Probe_C_Int), Instance(C_Float, Probe_C_Float), Instance(Current, Probe_Current), \
+    Instance(Cast, Probe_Cast), Instance(Pointer, Probe_Ref, Probe_Deref))
+PROBE_TYPE(ProbeA); PROBE_TYPE(ProbeB); PROBE_TYPE(ProbeC);
+static var probe_type(int t) { return t == 0 ? ProbeA : t == 1 ? ProbeB : ProbeC; }
+static const char* PROBE_Q[] = { "len", "cint", "cflt", "cstr", "hash", "cmp", "asg", "get", "mem", "set", "rem", "push", "pop", "pushat",
+  "popat", "cat", "app", "ref", "iter", "cur", "cast", "size", "fmt", "fmt2", "copy", NULL };
+static int probe_q(const char* t) { for (int i = 0; PROBE_Q[i]; i++) if (!strcmp(PROBE_Q[i], t)) return i; return -1; }
+
+/* Boxes owning each other (a ring; n == 1: a Box owning itself), dropped: garbage whose destructors come back to objects
+ * of the same sweep.  Never deleted explicitly: the collector finalises them (each once), under CELLO_NGC they leak. */
+static __attribute__((noinline)) long long ring_round(long long n, long long seed) {
+  var bx[8]; long long r = 0;
+  for (long long i = 0; i < n; i++) { var x = new(Int, $I(seed + i)); bx[i] = new(Box, x); r += c_int(deref(bx[i])); }
+  for (long long i = 0; i < n; i++) ref(bx[i], bx[(i + 1) % n]);          /* the Ints become plain garbage */
+  for (long long i = 0; i < n; i++) if (deref(bx[i]) == bx[(i + 1) % n]) r += 1000;
+  memset(bx, 0, sizeof bx);
+  return r;
+}
+static __attribute__((noinline)) long long churn_round(long long m) {
+  long long sum = 0;
+  for (long long j = 0; j < m; j++) { var t = new(Int, $I(j % 7)); sum += c_int(t); }
+  return sum;
 }
 
 static void check_tuple(int s, const char* after) {
@@ -781,6 +851,72 @@ static void run_op(int nt, char** t) {
       fprintf(vout, "T %s ok\n", op); return;
     }
     fprintf(vout, "T %s ok\n", op); check_tuple(a, op); return;
+  }
+
+  /* ---------------- method-cache probes and owning rings (transcript only) */
+  if (!strcmp(op, "preset")) {
+    if (nt != 2 || !parse_slot(t[1], &a) || a >= 3) BAD();
+    n_exec++;
+#if CELLO_CACHE == 1
+    memset(probe_type(a), 0, CELLO_CACHE_NUM * sizeof(var));      /* white box: the cache words open every Type object */
+#endif
+    fprintf(vout, "T preset\n"); return;
+  }
+  if (!strcmp(op, "probe")) {
+    long long v0;
+    if (nt < 3 || !parse_slot(t[1], &a) || a >= 3 || !parse_int(t[2], &v0)) BAD();
+    for (int i = 3; i < nt; i++) if (probe_q(t[i]) < 0) BAD();
+    if (v0 < -1000000 || v0 > 1000000) OOC();
+    n_exec++;
+    size_t l = 0; buf1[0] = 0; char e[160];
+    var ty = probe_type(a); var p = NULL; var other = NULL; var s = NULL;
+    V_TRY(exc, {
+      p = new_with(ty, tuple($I(v0))); other = new_with(ty, tuple($I(v0 + 1))); probe_current_obj = other;
+      for (int i = 3; i < nt; i++) {
+        struct Probe* q = p; e[0] = 0;
+        switch (probe_q(t[i])) {
+          case 0: snprintf(e, sizeof e, "len=%zu ", len(p)); break;
+          case 1: snprintf(e, sizeof e, "cint=%lld ", (long long)c_int(p)); break;
+          case 2: snprintf(e, sizeof e, "cflt=%.3f ", c_float(p)); break;
+          case 3: snprintf(e, sizeof e, "cstr=%s ", c_str(p)); break;
+          case 4: snprintf(e, sizeof e, "hash=%llu ", (unsigned long long)hash(p)); break;
+          case 5: snprintf(e, sizeof e, "cmp=%d,%d ", cmp(p, other), (int)eq(p, p)); break;
+          case 6: assign(p, other); snprintf(e, sizeof e, "asg=%lld ", (long long)q->v); break;
+          case 7: snprintf(e, sizeof e, "get=%d ", get(p, $I(3)) == p); break;
+          case 8: snprintf(e, sizeof e, "mem=%d ", (int)mem(p, $I(3))); break;
+          case 9: set(p, $I(4), $I(5)); snprintf(e, sizeof e, "set=%lld ", (long long)q->v); break;
+          case 10: rem(p, $I(3)); snprintf(e, sizeof e, "rem=%lld ", (long long)q->v); break;
+          case 11: push(p, $I(7)); snprintf(e, sizeof e, "push=%lld ", (long long)q->v); break;
+          case 12: pop(p); snprintf(e, sizeof e, "pop=%lld ", (long long)q->v); break;
+          case 13: push_at(p, $I(7), $I(2)); snprintf(e, sizeof e, "pushat=%lld ", (long long)q->v); break;
+          case 14: pop_at(p, $I(3)); snprintf(e, sizeof e, "popat=%lld ", (long long)q->v); break;
+          case 15: concat(p, $I(2)); snprintf(e, sizeof e, "cat=%lld ", (long long)q->v); break;
+          case 16: append(p, $I(2)); snprintf(e, sizeof e, "app=%lld ", (long long)q->v); break;
+          case 17: ref(p, other); snprintf(e, sizeof e, "ref=%d ", deref(p) == other); break;
+          case 18: { int cnt = 0; foreach (x in p) { cnt++; } snprintf(e, sizeof e, "iter=%d,%d ", cnt, iter_type(p) == Int); } break;
+          case 19: snprintf(e, sizeof e, "cur=%d ", current(ty) == other); break;
+          case 20: snprintf(e, sizeof e, "cast=%d ", cast(p, ty) == p); break;
+          case 21: snprintf(e, sizeof e, "size=%zu ", size(ty)); break;
+          case 22: s = new(String, $S("")); print_to(s, 0, "%li|%f", p, p); snprintf(e, sizeof e, "fmt=%s ", c_str(s)); del(s); break;
+          case 23: s = new(String, $S("")); print_to(s, 0, "%f|%li", p, p); snprintf(e, sizeof e, "fmt2=%s ", c_str(s)); del(s); break;
+          case 24: { var c = copy(p); snprintf(e, sizeof e, "copy=%lld,%d ", (long long)((struct Probe*)c)->v, type_of(c) == ty); del(c); } break;
+        }
+        app(buf1, &l, e);
+      }
+      probe_current_obj = NULL; del(p); del(other);
+    });
+    if (exc) { unexpected(exc); return; }
+    fprintf(vout, "T probe %s\n", buf1); return;
+  }
+  if (!strcmp(op, "ring")) {
+    long long rn, seed, m;
+    if (nt != 4 || !parse_int(t[1], &rn) || !parse_int(t[2], &seed) || !parse_int(t[3], &m)) BAD();
+    if (rn < 1 || rn > 8 || seed < -100000 || seed > 100000 || m < 0 || m > 400) OOC();
+    n_exec++;
+    long long r = 0, c = 0;
+    V_TRY(exc, { r = ring_round(rn, seed); c = churn_round(m); });
+    if (exc) { unexpected(exc); return; }
+    fprintf(vout, "T ring %lld churn %lld\n", r, c); return;
   }
   if (!strcmp(op, "gc")) {
     if (nt != 1) BAD();
